@@ -323,6 +323,15 @@ func (cl *compiler) compileAssignStmt(assign *ast.AssignStmt) {
 		for i := len(assign.Lhs) - 1; i >= 0; i-- {
 			varname := assign.Lhs[i].(*ast.Ident)
 			typ := cl.ctx.Types.TypeOf(varname)
+			if typ == nil {
+				// go/types records no type for a blank identifier on the left of `=`:
+				// the stored value has the type of the right operand (its i-th
+				// component when the operand is a call with several results).
+				typ = cl.ctx.Types.TypeOf(rhs)
+				if tuple, ok := typ.(*types.Tuple); ok && i < tuple.Len() {
+					typ = tuple.At(i).Type()
+				}
+			}
 			id := cl.getLocal(varname, varname.String())
 			cl.emit8(pickOp(typeIsInt(typ), opSetIntLocal, opSetLocal), id)
 		}
